@@ -16,6 +16,9 @@ EXTENDS OpChainsOps, TLC, Json, IOUtils
 
 Data == JsonDeserialize(IOEnv.TRACE_FILE)
 Tr == Data.traces
+Strict == IF "strict" \in DOMAIN Data THEN Data.strict ELSE TRUE
+Pid == IF "pid" \in DOMAIN Data THEN Data.pid ELSE "all"
+WidthIsOwn == Strict \/ Pid \in {"C20", "all"}          \* the width bound is a clause of C20, not of C05
 (* Two levels (harness/parallel.py): the site / partition / cover events bind the run to the compiler of OpChains.tla (its        *)
 (* invariants on the anchored state at every site); C05 speaks about the returned graph and MPO only.  In pass 2 the harness      *)
 (* removes those events; their diagnostics start with "spec: ".                                                                  *)
@@ -35,10 +38,12 @@ ChainOf(r) == [oids |-> r.oids, qnums |-> r.qnums, coeff |-> r.coeff, istart |->
 
 TChains ==
     /\ HasRec /\ Rec.ev = "chains" /\ pc = "none"
+    /\ Strict => Len(Rec.padded) = Len(Rec.chains)          \* the probe of OpChain.padded could be made
     /\ LET cs == [k \in DOMAIN Rec.chains |-> ChainOf(Rec.chains[k])]
        IN /\ \A k \in DOMAIN cs : ChainFits(cs[k], Rec.L)
           \* OpChain.padded(L, idoid) as computed by the code: identities and zero charges on both sides, start site 0
-          /\ \A k \in DOMAIN cs : /\ Rec.padded[k].oids = PaddedOids(cs[k], Rec.L, Rec.idoid)
+          /\ \A k \in (IF Strict /\ Len(Rec.padded) = Len(Rec.chains) THEN DOMAIN cs ELSE {}) :
+                                   /\ Rec.padded[k].oids = PaddedOids(cs[k], Rec.L, Rec.idoid)
                                    /\ Rec.padded[k].qnums = PaddedQnums(cs[k], Rec.L)
                                    /\ Rec.padded[k].istart = 0 /\ Rec.padded[k].coeff = cs[k].coeff
                                    /\ Rec.padded[k].eq_self /\ ~Rec.padded[k].eq_shifted
@@ -92,11 +97,11 @@ TGraph ==
     /\ JsonIdsUnique(Rec.g)
     /\ LET g == GraphOfJson(Rec.g)
        IN /\ JsonListsOK(Rec.g) /\ ConsistentG(g) /\ Rec.cons
-          /\ UniqueOids(g)
+          /\ Strict => UniqueOids(g)
           /\ GraphLength(g) = L /\ Rec.length = L
           /\ Den(g) = target
           /\ DenBackward(g) = target
-          /\ \A lev \in 0..L : Width(g, lev) <= (IF nz = 0 THEN 1 ELSE nz)
+          /\ WidthIsOwn => \A lev \in 0..L : Width(g, lev) <= (IF nz = 0 THEN 1 ELSE nz)
           /\ G' = g
     /\ pc' = "graph" /\ UNCHANGED <<L, target, nz, hc, co, P>> /\ Advance
 
@@ -134,6 +139,10 @@ TNextTrace == /\ tid <= Len(Tr) /\ l > Len(Tr[tid]) /\ pc \in {"graph", "mpo"}
 
 Diagnose ==
     IF Rec.ev = "raise" THEN Rec.exc
+    ELSE IF Rec.ev = "chains" THEN
+        (IF ~(\A k \in DOMAIN Rec.chains : ChainFits(ChainOf(Rec.chains[k]), Rec.L)) THEN "a chain of the input does not fit the lattice (generator problem)"
+         ELSE IF Len(Rec.padded) # Len(Rec.chains) THEN "spec: OpChain.padded could not be probed on every chain"
+         ELSE "spec: OpChain.padded / __eq__ differ from identity padding")
     ELSE IF Rec.ev = "site" THEN
         (IF ~JsonIdsUnique(Rec.g) \/ ~RefsOK(GraphOfJson(Rec.g)) THEN "spec: partial graph malformed"
          ELSE IF StatePoly(GraphOfJson(Rec.g), LoggedHC, Rec.co) # target THEN "spec: DenPreserved violated: graph + pending half-chains no longer denote the chain sum"
@@ -146,7 +155,8 @@ Diagnose ==
          ELSE IF GraphLength(GraphOfJson(Rec.g)) # L \/ Rec.length # L THEN "wrong length"
          ELSE IF Den(GraphOfJson(Rec.g)) # target THEN "graph does not denote the sum of the padded chains"
          ELSE IF ~Rec.cons THEN "is_consistent() false on a consistent graph"
-         ELSE "width bound or oid uniqueness violated")
+         ELSE IF ~UniqueOids(GraphOfJson(Rec.g)) THEN "spec: an operator id repeats on an edge"
+         ELSE (IF Pid \in {"C20", "all"} THEN "" ELSE "spec: (clause of C20) ") \o "more nodes at a cut than chains with non-zero coefficient")
     ELSE IF Rec.ev = "mpo" THEN "MPO tensors / bond charges / node map differ from the graph"
     ELSE "unexpected event"
 
